@@ -37,7 +37,10 @@ class TCPTransport(BaseTransport, scheme="tcp"):
             return
         self.is_closed = True
         self.writer.close()
-        await self.writer.wait_closed()
+        try:
+            await self.writer.wait_closed()
+        except ConnectionError as e:
+            logger.debug(f"Exception while waiting for the writer to close: {e!r}")
 
     async def write(
         self,
